@@ -170,6 +170,30 @@ where
             }
         }
     }
+    if tamper.is_none() {
+        // the number of partitions (the last byte of the serialized proof, log2 of the count) is layout metadata chosen by
+        // the prover and bound by nothing: whatever it claims - also counts above the size of a folded layer - the verifier
+        // must answer with Ok or Err, never with a panic
+        for log_partitions in 0..=255u8 {
+            let mut b2 = bytes.clone();
+            *b2.last_mut().unwrap() = log_partitions;
+            let outcome = catch_unwind(AssertUnwindSafe(|| -> Result<(), String> {
+                let p2 = FriProof::read_from(&mut SliceReader::new(&b2)).map_err(|e| e.to_string())?;
+                let mut ch = DefaultVerifierChannel::<E, H>::new(p2, commitments.clone(), domain_size, options.folding_factor()).map_err(|e| e.to_string())?;
+                let mut coin = DefaultRandomCoin::<H>::new(&[]);
+                let v = FriVerifier::new(&mut ch, &mut coin, options.clone(), max_degree).map_err(|e| e.to_string())?;
+                let queried: Vec<E> = positions.iter().map(|&p| evals[p]).collect();
+                v.verify(&mut ch, &queried, &positions).map_err(|e| e.to_string())
+            }));
+            if outcome.is_err() {
+                fail(format!(
+                    "the FRI verifier PANICS on a proof that claims 2^{log_partitions} partitions (domain {domain_size}, folding {}, {} layers)",
+                    options.folding_factor(),
+                    proof.num_layers()
+                ));
+            }
+        }
+    }
     let mut vchannel = match DefaultVerifierChannel::<E, H>::new(proof, commitments, domain_size, options.folding_factor()) {
         Ok(c) => c,
         Err(_) => return Err(VerifierError::InvalidRemainderFolding),
